@@ -399,6 +399,22 @@ def check_mapping(ctx, rnd):
             bad("copy", "appending to a mapping changed a copy taken earlier")
         ctx.count("copy_independence_checks")
         del cp2
+        # appending to a truncated view (slice with to < len, or a copy of one): the new map goes
+        # to the end of the map list, the view then reaches to the end, and a mirror registered
+        # with the append belongs to the NEW map
+        if n >= 2:
+            t_ = rnd.randint(0, n - 1)
+            f_ = rnd.randint(0, t_)
+            view = Mapping(list(maps), list(mirror) if mirror else None, f_, t_)
+            if rnd.random() < 0.5:
+                view = view.copy()
+            k_ = rnd.choice(free) if free and rnd.random() < 0.8 else None
+            view.append_map(random_small_map(rnd), k_)
+            want = P | ({frozenset((k_, n))} if k_ is not None else set())
+            if len(view.maps) != n + 1 or view.from_ != f_ or view.to != n + 1 or pairs_of(view.mirror) != want:
+                bad("append-to-view", "append_map(m, %r) on a view [%d,%d) of %d maps gives from=%r to=%r, %d maps, mirror pairs %r; expected to=%d and pairs %r"
+                    % (k_, f_, t_, n, view.from_, view.to, len(view.maps), sorted(map(sorted, pairs_of(view.mirror))), n + 1, sorted(map(sorted, want))))
+            ctx.count("append_to_view_checks")
         # append_mapping / append_mapping_inverted / invert
         other_maps = [random_small_map(rnd) for _ in range(rnd.randint(1, 3))]
         om = Mapping()
